@@ -31,7 +31,7 @@ RULE = ("A Hypothesis RuleBasedStateMachine starts from a generated RaggedArray 
 ASSUMPTIONS = ["row assignment only with values of the row's current length (different-length semantics are undocumented)",
                "writes through returned row views are not part of the operation alphabet",
                "a write whose selection is entirely empty may raise or be a no-op, but must leave the array unchanged",
-               "second-dimension slices use start >= 0 (or None) and positive steps; negative starts/steps are C05's subject"]
+               "a[rows, slice] op= v reads the selection first, so it is applied only when no selected row is empty"]
 SHARDS = {"quick": 4, "thorough": 16}
 
 INT_VALS = st.integers(-9, 9)
@@ -484,18 +484,18 @@ def make_machine(hooks):
             return data.draw(st.integers(-n, n - 1))
 
         def col_slice(self, data):
-            start = data.draw(st.sampled_from([None, 0, 1, 2, 3]))
-            stop = data.draw(st.sampled_from([None, None, 1, 2, 3, 4, 6, -1, -2, -3]))
-            step = data.draw(st.sampled_from([None, None, 1, 2, 3]))
+            start = data.draw(st.sampled_from([None, None, 0, 1, 2, 3, -1, -2, -3, -7]))
+            stop = data.draw(st.sampled_from([None, None, 0, 1, 2, 3, 4, 6, -1, -2, -3]))
+            step = data.draw(st.sampled_from([None, None, None, 1, 2, 3, -1, -2]))
             return [start, stop, step]
 
         def row_sel(self, data):
             n = len(self.core.m)
             kind = data.draw(st.sampled_from(["slice", "slice", "list", "array"]))
             if kind == "slice":
-                start = data.draw(st.sampled_from([None, 0, 1, 2]))
-                stop = data.draw(st.sampled_from([None, None, 1, 2, 3, n, -1]))
-                step = data.draw(st.sampled_from([None, None, 1, 2]))
+                start = data.draw(st.sampled_from([None, None, 0, 1, 2, -1, -2]))
+                stop = data.draw(st.sampled_from([None, None, 1, 2, 3, n, n + 2, -1]))
+                step = data.draw(st.sampled_from([None, None, 1, 2, -1]))
                 return {"kind": "slice", "v": [start, stop, step]}
             rows = data.draw(st.lists(st.integers(0, n - 1), min_size=1, max_size=min(n, 3), unique=True))
             return {"kind": kind, "v": rows}
@@ -521,8 +521,6 @@ def make_machine(hooks):
         def set_rows(self, data):
             if __import__("os").environ.get("C06_NO_SETROWS"): return
             sel = self.row_sel(data)
-            if sel["kind"] == "slice" and sel["v"][2] not in (None, 1):
-                sel["v"][2] = None
             rows = self.core.rows_of(sel)
             if not rows:
                 return
